@@ -143,6 +143,19 @@ def run(res, tier="quick", seed=0, widen=False):
                                       ("index:range-instead", pd.RangeIndex(N))]:
                         kw = dict(kw_al); kw[p] = pd.Series(kw0[p], index=idx)
                         record(dict(callable=f"GroupBy.{name}", arg=p, perturbation=pert, keys=keys_kind), True, lambda kw=kw: call_method(GroupBy(keys), name, kw))
+                        if pert in ("index:permuted", "index:shifted"):
+                            # the same grouping, used again: a misaligned input stays rejected whatever was passed (and rejected or
+                            # accepted) before — the same object again, another Series sharing its index, after an aligned call
+                            gbh = GroupBy(keys)
+                            try:
+                                call_method(gbh, name, kw)
+                            except Exception:  # noqa: BLE001
+                                pass
+                            record(dict(callable=f"GroupBy.{name}", arg=p, perturbation=pert + ":again-on-the-same-grouping", keys=keys_kind), True, lambda kw=kw, g=gbh: call_method(g, name, kw))
+                            kw2 = dict(kw_al); kw2[p] = pd.Series(np.asarray(kw0[p]).copy(), index=kw[p].index)
+                            record(dict(callable=f"GroupBy.{name}", arg=p, perturbation=pert + ":other-series-same-index", keys=keys_kind), True, lambda kw2=kw2, g=gbh: call_method(g, name, kw2))
+                            record(dict(callable=f"GroupBy.{name}", arg="-", perturbation="aligned:after-rejections", keys=keys_kind), False, lambda g=gbh: call_method(g, name, kw_al))
+                            record(dict(callable=f"GroupBy.{name}", arg=p, perturbation=pert + ":after-an-aligned-call", keys=keys_kind), True, lambda kw=kw, g=gbh: call_method(g, name, kw))
                     if p in ("values", "values1"):
                         # datetime-valued Series go through the timestamp conversion before the index check
                         dtv = pd.Series((np.arange(N) * 10**9).astype("int64").view("datetime64[ns]"), index=[11, 12, 13, 14, 15, 16])
